@@ -30,7 +30,7 @@ except Exception:      # noqa: BLE001 - optional part of the zoo
     multidoing = None
 
 PID = "C28"
-RULE = ("cases: (class from a zoo of 20 data classes, three of them subclasses that add nested data-object fields to a concrete parent which is deserialised first over RawDom/RegDom/TymeDom/IceRawDom/IceRegDom/IceTymeDom and the "
+RULE = ("cases: (class from a zoo of 23 data classes, two of them field-less markers nested in a holder (a nested marker serialises to the empty dict), three of them subclasses that add nested data-object fields to a concrete parent which is deserialised first over RawDom/RegDom/TymeDom/IceRawDom/IceRegDom/IceTymeDom and the "
         "tree's Bag, IceBag, AckDom/AddrDom/MemoDom/BokDom, field values); values (also in fields whose declared default is not None, and None in typed fields) drawn from None, bools, ints in "
         "[-2**63, 2**64-1], finite floats, surrogate-free unicode strings, lists and string-keyed dicts of those, nested "
         "data objects in fields typed by their class; non-trivial = the object holds a nested data object or a nested "
@@ -170,10 +170,33 @@ class ZSubIceReg(ZIceReg):
     z: Any = None
 
 
+# data classes WITHOUT fields (markers) and a holder that nests them: a nested marker serialises to {} - an empty, falsy value
+@dataclass
+class ZMark(RawDom):
+    pass
+
+
+@dataclass(frozen=True)
+class ZIceMark(IceRawDom):
+    pass
+
+
+@registerify
+@dataclass
+class ZHolder(RegDom):
+    mark: ZMark = field(default_factory=ZMark)
+    ice: ZIceMark = field(default_factory=ZIceMark)
+    inner: ZInner = field(default_factory=ZInner)
+    n: int = 0
+
+    def __hash__(self):
+        return hash((self.__class__.__name__,))
+
+
 PARENT = {"ZSubFlat": "ZFlat", "ZSubInner": "ZInner", "ZSubIceReg": "ZIceReg"}
 
 ZOO = {c.__name__: c for c in (ZInner, ZIceInner, ZMid, ZOuter, ZIceReg, ZIceTyme, ZFlat, ZDefaults, ZIceDefaults,
-                               ZSubFlat, ZSubInner, ZSubIceReg, bagging.Bag, bagging.IceBag)}
+                               ZSubFlat, ZSubInner, ZSubIceReg, ZMark, ZIceMark, ZHolder, bagging.Bag, bagging.IceBag)}
 if multidoing is not None:
     # CrewDom is left out: its default boss field is a namedtuple, outside the common domain of the codecs
     for _n in ("AddrDom", "AckDom", "MemoDom", "BokDom", "EndDom", "HandDom"):
@@ -375,7 +398,7 @@ def _strategy():
     names = sorted(ZOO)
     # weight the classes with nested data objects
     weighted = names + ["ZOuter", "ZOuter", "ZMid", "ZIceTyme", "ZIceReg", "ZDefaults", "ZDefaults", "ZIceDefaults", "ZSubFlat", "ZSubFlat",
-                        "ZSubInner", "ZSubIceReg"] + (["AckDom"] if "AckDom" in ZOO else [])
+                        "ZSubInner", "ZSubIceReg", "ZHolder", "ZHolder"] + (["AckDom"] if "AckDom" in ZOO else [])
     return st.sampled_from(weighted).flatmap(
         lambda n: st.fixed_dictionaries({"obj": spec_strategy(n), "json_as_str": st.booleans()}))
 
